@@ -29,7 +29,7 @@ class KDCollatorBase:
             # check if default_collate should be called before this collator
             if collator.default_collate_mode == "before" and not called_default_collate:
                 batch = default_collate(batch)
-                if return_ctx:
+                if return_ctx and not removed_ctx_from_batch:
                     batch, ctx = batch
                     assert isinstance(ctx, dict), \
                         "ModeWrapper.return_ctx should be equal to KDComposeCollator.return_ctx"
